@@ -43,6 +43,9 @@ def plan(tier, seed):
             for sh in range(4):
                 tasks.append(("pairs", tier, pid, sh, 4))
                 tasks.append(("nested", tier, pid, sh, 4))
+            if n <= 20:
+                for sh in range(4):
+                    tasks.append(("nested3", tier, pid, sh, 4))
     return tasks
 
 
@@ -58,6 +61,15 @@ class Work:
         for d in (self.d1, self.d2):
             for f in os.listdir(d):
                 os.unlink(os.path.join(d, f))
+        for f in os.listdir(self.tmp):
+            if f.endswith(".inc"):
+                os.unlink(os.path.join(self.tmp, f))
+
+    def decoys(self, names):
+        """same-named files with different content BESIDE the main source:
+        they are not on the include path and must never be used"""
+        for n in names:
+            open(os.path.join(self.tmp, n), "w").write(" zzdecoy = 1\n")
 
     def close(self):
         shutil.rmtree(self.tmp, ignore_errors=True)
@@ -100,11 +112,23 @@ def check(res, work, pid, std, ref, main, files, desc, feat, configs):
             for n, c in files.items():
                 open(os.path.join(work.d2, n), "w").write(c)
             dirs = [work.d1, work.d2]
+        elif dir_mode == "split":
+            # the outermost include file is found in the SECOND directory
+            # only; the files it includes are on the path in the first
+            # directory, and same-named decoys sit next to the including file
+            names = sorted(files)
+            open(os.path.join(work.d2, names[0]), "w").write(files[names[0]])
+            for n in names[1:]:
+                open(os.path.join(work.d1, n), "w").write(files[n])
+                open(os.path.join(work.d2, n), "w").write(" zzwrong = 1\n")
+            dirs = [work.d1, work.d2]
         else:  # both: d1 has the right content, d2 a different one
             for n, c in files.items():
                 open(os.path.join(work.d1, n), "w").write(c)
                 open(os.path.join(work.d2, n), "w").write(" zzwrong = 1\n")
             dirs = [work.d1, work.d2]
+        if reader_kind == "file":
+            work.decoys(files)
         res.evals += 1
         res.transitions += 1
         hk = h64(main, repr(sorted(files.items())), reader_kind, dir_mode, str(ic), std)
@@ -130,6 +154,7 @@ def check(res, work, pid, std, ref, main, files, desc, feat, configs):
 
 FULL_CONFIGS = [("string", "d1", True), ("file", "d1", True), ("string", "d2only", True), ("file", "both", True), ("string", "d1", False), ("file", "d2only", False)]
 LIGHT_CONFIGS = [("string", "d1", True), ("file", "both", False)]
+NESTED_CONFIGS = [("string", "split", True), ("file", "both", False), ("file", "split", True)]
 
 
 def boundary_feature(prog, i, j):
@@ -202,7 +227,25 @@ def run(task):
                                 continue
                             main = "\n".join(L[:i] + [" include 'inc1.inc'"] + L[j:]) + "\n"
                             inc1 = flat(L[i:a]) + " include 'inc2.inc'\n" + flat(L[b:j])
-                            check(res, work, pid, std, ref, main, {"inc1.inc": inc1, "inc2.inc": flat(L[a:b])}, "interval [%d,%d) with nested [%d,%d)" % (i, j, a, b), "nested", LIGHT_CONFIGS)
+                            check(res, work, pid, std, ref, main, {"inc1.inc": inc1, "inc2.inc": flat(L[a:b])}, "interval [%d,%d) with nested [%d,%d)" % (i, j, a, b), "nested", NESTED_CONFIGS[k % 3 : k % 3 + 1] + LIGHT_CONFIGS[:1])
+        elif kind == "nested3":
+            # three levels: main -> inc1 -> inc2 -> inc3
+            sh, nsh = task[3], task[4]
+            stride = 60 if tier == "quick" else 4
+            k = 0
+            for i in range(n):
+                for j in range(i + 3, n + 1):
+                    for a in range(i, j):
+                        for b in range(a + 2, j + 1):
+                            for c in range(a, b):
+                                for d in range(c + 1, b + 1):
+                                    k += 1
+                                    if k % nsh != sh or (k // nsh) % stride:
+                                        continue
+                                    main = "\n".join(L[:i] + [" include 'inc1.inc'"] + L[j:]) + "\n"
+                                    inc1 = flat(L[i:a]) + " include 'inc2.inc'\n" + flat(L[b:j])
+                                    inc2 = flat(L[a:c]) + " INCLUDE \"inc3.inc\"\n" + flat(L[d:b])
+                                    check(res, work, pid, std, ref, main, {"inc1.inc": inc1, "inc2.inc": inc2, "inc3.inc": flat(L[c:d])}, "3-deep [%d,%d) [%d,%d) [%d,%d)" % (i, j, a, b, c, d), "nested3", NESTED_CONFIGS[k % 3 : k % 3 + 1])
         elif kind == "absent":
             base_lines = [l.strip() for l in text_of(o0.tree).split("\n") if l.strip()]
             if len(base_lines) != n:
@@ -225,6 +268,8 @@ def run(task):
                 for reader_kind in ("string", "file"):
                     for ic in (True, False):
                         work.clear()
+                        if reader_kind == "file":
+                            work.decoys(["absent_file.inc"])
                         res.evals += 1
                         res.transitions += 1
                         hk = h64(main, reader_kind, str(ic))
@@ -272,6 +317,8 @@ def replay(case):
     if case.get("mode") == "absent":
         work = Work()
         try:
+            if case["reader"] == "file":
+                work.decoys(["absent_file.inc"])
             o = parse_with(work, case["main"], case["reader"], [work.d1], case["std"], case["ic"])
             k, d = judge_absent(o, case["base_lines"], case["i"])
         finally:
